@@ -118,9 +118,41 @@ fn test(c: &Case, st: &mut Stats) -> TestResult {
         got,
         want
     );
+    // the public CRC helper on the same bytes (and on a prefix, a suffix and the value itself) is the
+    // plain CRC-32/ISO-HDLC, big endian, without the XOR
+    for (a, b) in [(0usize, fp_start), (0, (c.seed as usize) % (fp_start + 1)), ((c.seed >> 16) as usize % (fp_start + 1), fp_start), (fp_start, built.len())] {
+        let data = &built[a..b];
+        let lib = guard(|| stun_types::attribute::Fingerprint::compute(data)).map_err(|p| Fail::new("c09-panic", format!("Fingerprint::compute panicked: {}", p)))?;
+        ensure!(
+            lib == crate::refimpl::crc32(data).to_be_bytes(),
+            "c09-value",
+            "Fingerprint::compute over {} bytes gives {}, CRC-32 (ISO-HDLC) is {:08x}",
+            data.len(),
+            hex(&lib),
+            crate::refimpl::crc32(data)
+        );
+    }
     if Message::from_bytes(&built).is_err() {
         st.class("original refused (C02/C03's business)");
         return Ok(());
+    }
+    // the typed view of the attribute removes the XOR again: what it shows is the CRC itself
+    {
+        use stun_types::attribute::{AttributeFromRaw, AttributeStaticType, Fingerprint};
+        let msg = Message::from_bytes(&built).unwrap();
+        if let Some(raw) = msg.raw_attribute(Fingerprint::TYPE) {
+            let f = Fingerprint::from_raw(&raw).map_err(|e| Fail::new("c09-value", format!("the appended FINGERPRINT does not decode: {:?}", e)))?;
+            ensure!(
+                u32::from_be_bytes(*f.fingerprint()) == want ^ 0x5354_554e,
+                "c09-value",
+                "typed FINGERPRINT shows {} for wire value {:08x} (CRC {:08x})",
+                hex(f.fingerprint()),
+                got,
+                want ^ 0x5354_554e
+            );
+        } else {
+            return Err(Fail::new("c09-value", "the parsed message does not expose the FINGERPRINT the builder appended"));
+        }
     }
     st.class("fingerprinted message");
     if spec.seal.integrity() {
